@@ -224,7 +224,7 @@ size_t fread(void *p, size_t sz, size_t n, FILE *f)
 	REAL(fread);
 	if (!in_script || f == stdin) return real_fread(p, sz, n, f);
 	int g = gate(K_FREAD);
-	if (g > 0) { logf_("fread 0|"); errno = g; return 0; }
+	if (g > 0) { logf_("fread 0|"); f->_flags |= 0x20 /* _IO_ERR_SEEN: ferror(f) */; errno = g; return 0; }
 	size_t r = real_fread(p, sz, n, f);
 	logf_("fread %zu|", r * sz);
 	return r;
